@@ -886,7 +886,7 @@ fn gen_line(rng: &mut Rng, node_idx: usize, depth: u32, threads_ok: bool, spicy:
         }
         11..=14 => {
             let t = *rng.pick(&[Ty::I, Ty::S, Ty::M, Ty::D, Ty::N, Ty::NS, Ty::V]);
-            let id = if t == Ty::V { rng.pick(&["v0", "v1", "a", "a_value_id_longer_than_sixteen_bytes"]).to_string() } else { id_for(rng, t) };
+            let id = if t == Ty::V { rng.pick(&["v0", "v1", "a", "a_value_id_longer_than_sixteen_bytes", "v1.", ".v0"]).to_string() } else { id_for(rng, t) };
             Line::Cached(t, id)
         }
         15..=17 => {
@@ -900,7 +900,7 @@ fn gen_line(rng: &mut Rng, node_idx: usize, depth: u32, threads_ok: bool, spicy:
             Line::ReadFile(id_for(rng, t), rng.pick(exts_of(t)).to_string())
         }
         24..=25 => Line::ReadDir(id_for(rng, Ty::DI)),
-        26..=27 => Line::Insert(rng.pick(&["v0", "v1", "a", "a_value_id_longer_than_sixteen_bytes"]).to_string(), rng.below(30) as i64),
+        26..=27 => Line::Insert(rng.pick(&["v0", "v1", "a", "a_value_id_longer_than_sixteen_bytes", "v1.", ".v0"]).to_string(), rng.below(30) as i64),
         28 if threads_ok && depth < 2 => Line::Thread(Box::new(gen_line(rng, node_idx, depth + 1, false, spicy))),
         29..=30 => Line::Fail,
         31 => Line::Panic,
@@ -945,7 +945,7 @@ pub struct GenCfg {
 
 fn goi(rng: &mut Rng) -> Op {
     let t = *rng.pick(&[Ty::V, Ty::V, Ty::I, Ty::S]);
-    let id = if t == Ty::V { rng.pick(&["v0", "v1", "a", "a_value_id_longer_than_sixteen_bytes"]).to_string() } else { rng.pick(FILE_IDS).to_string() };
+    let id = if t == Ty::V { rng.pick(&["v0", "v1", "a", "a_value_id_longer_than_sixteen_bytes", "v1.", ".v0"]).to_string() } else { rng.pick(FILE_IDS).to_string() };
     Op::GetOrInsert(t, id, rng.below(30) as i64)
 }
 
@@ -1194,7 +1194,7 @@ pub fn gen_ops(rng: &mut Rng, len: usize, cfg: GenCfg) -> Vec<Op> {
             }
             45..=50 => {
                 let t = if rng.chance(1, 6) { Ty::V } else { t };
-                let id = if t == Ty::V { rng.pick(&["v0", "v1", "a", "a_value_id_longer_than_sixteen_bytes"]).to_string() } else { id_for(rng, t) };
+                let id = if t == Ty::V { rng.pick(&["v0", "v1", "a", "a_value_id_longer_than_sixteen_bytes", "v1.", ".v0"]).to_string() } else { id_for(rng, t) };
                 Op::GetCached(t, id)
             }
             51..=54 => {
@@ -1214,7 +1214,7 @@ pub fn gen_ops(rng: &mut Rng, len: usize, cfg: GenCfg) -> Vec<Op> {
             63..=68 if mutable => Op::Remove(t, id_for(rng, t)),
             69..=72 if mutable => {
                 let t = if rng.chance(1, 5) { Ty::V } else { t };
-                let id = if t == Ty::V { rng.pick(&["v0", "v1", "a", "a_value_id_longer_than_sixteen_bytes"]).to_string() } else { id_for(rng, t) };
+                let id = if t == Ty::V { rng.pick(&["v0", "v1", "a", "a_value_id_longer_than_sixteen_bytes", "v1.", ".v0"]).to_string() } else { id_for(rng, t) };
                 Op::Take(t, id)
             }
             73 if mutable => Op::Clear,
